@@ -36,6 +36,7 @@
 #include <cppcms/cstdint.h>
 
 #include "hash_map.h"
+#include <booster/verif_trace.h>
 
 #include <string.h>
 
@@ -252,19 +253,23 @@ public:
 	virtual bool fetch(std::string const &key,std::string *a,std::set<std::string> *triggers,time_t *timeout_out,uint64_t *gen)
 	{
 		rdlock_guard lock(*access_lock);
+		BOOSTER_VERIF_SCOPE(verif_rd,"rd",this);
 		pointer p;
 		time_t now;
 		time(&now);
 
 		if((p=primary.find(key))==primary.end() || p->second.timeout->first < now) {
+			BOOSTER_VERIF_EMIT("\"e\":\"Lin\",\"op\":\"fetch\",\"k\":\"%s\",\"hit\":false",key.c_str());
 			return false;
 		}
 
 		{ // Update LRU
 			lock_guard lock(*lru_mutex);
+			BOOSTER_VERIF_SCOPE(verif_lru,"lru",this);
 			lru.erase(p->second.lru);
 			lru.push_front(p);
 			p->second.lru=lru.begin();
+			BOOSTER_VERIF_EMIT("\"e\":\"Lin\",\"op\":\"fetch\",\"k\":\"%s\",\"hit\":true,\"gen\":%llu",key.c_str(),(unsigned long long)(p->second.generation));
 		}
 
 		if(a)
@@ -289,6 +294,8 @@ public:
 	virtual void rise(std::string const &trigger)
 	{
 		wrlock_guard lock(*access_lock);
+		BOOSTER_VERIF_SCOPE(verif_wr,"wr",this);
+		BOOSTER_VERIF_EMIT("\"e\":\"Lin\",\"op\":\"rise\",\"k\":\"%s\"",trigger.c_str());
 		triggers_ptr p = triggers.find(trigger);
 		if(p==triggers.end())
 			return;
@@ -316,13 +323,17 @@ public:
 	virtual void clear()
 	{
 		wrlock_guard lock(*access_lock);
+		BOOSTER_VERIF_SCOPE(verif_wr,"wr",this);
 		nl_clear();
+		BOOSTER_VERIF_EMIT("\"e\":\"Lin\",\"op\":\"clear\"");
 	}
 	virtual void stats(unsigned &keys,unsigned &triggers)
 	{
 		rdlock_guard lock(*access_lock);
+		BOOSTER_VERIF_SCOPE(verif_rd,"rd",this);
 		keys=size;
 		triggers = triggers_count;
+		BOOSTER_VERIF_EMIT("\"e\":\"Lin\",\"op\":\"stats\",\"keys\":%u,\"trigs\":%u",keys,triggers);
 	}
 	void check_limits()
 	{
@@ -346,6 +357,8 @@ public:
 	virtual void remove(std::string const &key)
 	{
 		wrlock_guard lock(*access_lock);
+		BOOSTER_VERIF_SCOPE(verif_wr,"wr",this);
+		BOOSTER_VERIF_EMIT("\"e\":\"Lin\",\"op\":\"remove\",\"k\":\"%s\"",key.c_str());
 		pointer p=primary.find(key);
 		if(p==primary.end())
 			return;
@@ -378,11 +391,16 @@ public:
 		}
 
 		wrlock_guard lock(*access_lock);
+		BOOSTER_VERIF_SCOPE(verif_wr,"wr",this);
 		try {
 			pointer main;
 			main=primary.find(key);
 			if(main!=primary.end())
 				delete_node(main);
+#ifdef CPPCMS_VERIF
+			if(size > size_limit())
+				BOOSTER_VERIF_EMIT("\"e\":\"Lin\",\"op\":\"store_refused\",\"k\":\"%s\"",key.c_str());
+#endif
 			if(size > size_limit())
 				return;
 			check_limits();
@@ -407,10 +425,12 @@ public:
 			for(si=triggers_in.begin();si!=triggers_in.end();si++) {
 				add_trigger(main,*si);
 			}
+			BOOSTER_VERIF_EMIT("\"e\":\"Lin\",\"op\":\"store\",\"k\":\"%s\",\"gen\":%llu",key.c_str(),(unsigned long long)(cont.generation));
 		}
 		catch(std::bad_alloc const &e)
 		{
 			nl_clear();
+			BOOSTER_VERIF_EMIT("\"e\":\"Lin\",\"op\":\"store_cleared\",\"k\":\"%s\"",key.c_str());
 		}
 	}
 	virtual void add_ref()
